@@ -8,6 +8,7 @@ CONSTANTS
   MaxTick = 2
   NP = 2
   Limit = 1
+  MaxAErr = 0
   MaxFail = 1
   MaxAbort = 1
 SPECIFICATION SpecConn
